@@ -46,6 +46,8 @@ CLAIMS = {
          "Each of the 18 query fields is read by exactly one filter closure that compares the documented entry field(s) with the documented inclusive operator / variant set, returns true when the criterion is absent, and both query paths restrict to the account argument (two defects repaired); limit, sort field and direction are applied; legacy look-ups compare id / slate id. Sort stability is not decided."),
  "C08": ("codec automata (NFA inclusion writer subset-of reader over primitive ops) + flag/field tables + path-enumerated enum tables + conversion field maps + serde default/skip shape matching + sibling constant sets + truncating-cast guards", "4 C08",
          "For 19 Writeable/Readable pairs every token string the writer can emit is accepted by the reader (and conversely for fixed layouts); each optional-field flag is set from, guards and is read into the same field; the u8/string/enum tables are mutually inverse bijections; Slate<->SlateV4 field maps are total and inverse; every skip_serializing_if has a default satisfying it; the sets of kernel features that carry arguments agree across siblings (3 known findings: NRD / tx_from_slate_v4); length prefixes are bound-checked (2 defects repaired). Value-level equality of round trips is not decided."),
+ "C20": ("lock analysis: wallet-lock sections (guard live ranges), value flow of records across sections, held-while-acquire graph over all mutex identities through the resolved call graph", "4 C20",
+         "R1: no record obtained inside one wallet-lock section flows into a save/delete/lock written in a different section (36 read-to-write flows; 6 known findings in update_wallet_state/update_txs_via_kernel/scan, witnessed); R2: the held-while-acquire graph over the wallet mutex, the global secp mutex (including the momentary lock inside static_secp_instance), Owner.tor_config, the keychain-mask and shared-key mutexes and the updater flags is acyclic, so no interleaving of these operations can deadlock on them (3 cycles found, witnessed and repaired in /repo). Both are necessary conditions; serialisability of all interleavings as such is not decided."),
 }
 
 checks = []
